@@ -77,9 +77,11 @@ def filt(outdir, wt, shard):
         sh('git checkout -q -- . ', cwd=wt)
         print(d, st['status'], flush=True)
 
-def run(outdir, REPO):
+def run(outdir, REPO, shard='0/1'):
+    si, sn = [int(x) for x in shard.split('/')]
     assert subprocess.run(['git', '-C', REPO, 'status', '--porcelain', '--untracked-files=no'], capture_output=True, text=True).stdout.strip() == '', REPO + ' not clean'
-    for d in sorted(os.listdir(outdir)):
+    for k, d in enumerate(sorted(os.listdir(outdir))):
+        if k % sn != si: continue
         p = os.path.join(outdir, d)
         sp = os.path.join(p, 'status.json')
         if not os.path.exists(sp) or json.load(open(sp)).get('status') != 'survived': continue
@@ -88,7 +90,7 @@ def run(outdir, REPO):
         if r.returncode != 0:
             print(json.dumps({'mutant': d, 'error': r.stderr[-200:]})); continue
         try:
-            env = dict(os.environ, VERIF_EVIDENCE_DIR=os.path.join(outdir, '_evidence'), VERIF_REPLAY_DIR=os.path.join(p, 'replays'))
+            env = dict(os.environ, VERIF_EVIDENCE_DIR=os.path.join(outdir, '_evidence%d' % si), VERIF_REPLAY_DIR=os.path.join(p, 'replays'))
             c = subprocess.run(['./check', 'ALL', '--repo', REPO], cwd='/verif', capture_output=True, text=True, timeout=7200, env=env)
             open(os.path.join(p, 'check.log'), 'w').write(c.stdout + c.stderr)
             viol = sorted(set(re.findall(r'^VIOLATION property=(C\d+)', c.stdout, re.M)))
@@ -100,4 +102,4 @@ def run(outdir, REPO):
             subprocess.run(['git', '-C', REPO, 'checkout', '--', '.'])
 
 if __name__ == '__main__':
-    {'gen': lambda: gen(sys.argv[2]), 'filter': lambda: filt(sys.argv[2], sys.argv[3], sys.argv[4]), 'run': lambda: run(sys.argv[2], sys.argv[3])}[sys.argv[1]]()
+    {'gen': lambda: gen(sys.argv[2]), 'filter': lambda: filt(sys.argv[2], sys.argv[3], sys.argv[4]), 'run': lambda: run(sys.argv[2], sys.argv[3], *(sys.argv[4:5]))}[sys.argv[1]]()
